@@ -23,7 +23,30 @@ pub enum Tok {
     Fab,
     /// `UpdateVersion { e_tag: None }`
     Missing,
+    // ---- strings that are NOT the latest token but would match it under
+    // looser-than-equality rules (the `if_match` header grammar, trimming,
+    // validator quoting). A conditional update is a compare-and-swap on the
+    // exact token: the reference store compares strings.
+    /// the literal `*`
+    Star,
+    /// `"<stale>, <latest>"` (a comma list that contains the latest token)
+    ListStaleLatest,
+    /// `" <latest> "`
+    Padded,
+    /// `"<latest>,"`
+    LatestComma,
+    /// the empty string
+    Empty,
+    /// `"\"<latest>\""` (strong-validator spelling)
+    Quoted,
+    /// `W/"<latest>"` (weak-validator spelling)
+    Weak,
 }
+
+/// The token roles of [`Tok`] beyond the basic five: near misses of the
+/// latest token.
+pub const ODD_TOKENS: [Tok; 7] =
+    [Tok::Star, Tok::ListStaleLatest, Tok::Padded, Tok::LatestComma, Tok::Empty, Tok::Quoted, Tok::Weak];
 
 #[derive(Clone, Copy, Debug, PartialEq, Eq, Hash, Serialize, Deserialize)]
 pub enum Mode {
@@ -146,6 +169,20 @@ impl Book {
             Tok::Other => Some(self.tok_other(k).unwrap_or_else(|| "no-other-token".into())),
             Tok::Fab => Some("fabricated-token".into()),
             Tok::Missing => None,
+            Tok::Star => Some("*".into()),
+            Tok::Empty => Some(String::new()),
+            Tok::ListStaleLatest | Tok::Padded | Tok::LatestComma | Tok::Quoted | Tok::Weak => {
+                let latest = self.tok_latest(k).unwrap_or_else(|| "never-had-a-token".into());
+                Some(match t {
+                    Tok::ListStaleLatest => {
+                        format!("{}, {latest}", self.tok_stale(k).unwrap_or_else(|| "no-stale-token".into()))
+                    }
+                    Tok::Padded => format!(" {latest} "),
+                    Tok::LatestComma => format!("{latest},"),
+                    Tok::Quoted => format!("\"{latest}\""),
+                    _ => format!("W/\"{latest}\""),
+                })
+            }
         }
     }
     /// Records that key `k` got a new commit / was removed.
@@ -335,6 +372,20 @@ pub fn alphabet(cs: u64, full: bool) -> Vec<Op> {
     }
     let mut seen = std::collections::HashSet::new();
     out.retain(|o| seen.insert(o.clone()));
+    out
+}
+
+/// Conditional updates presenting each near miss of the latest token
+/// ([`ODD_TOKENS`]) on every key; used at the last position of a history
+/// (on a conforming store they commit nothing, so nothing follows from them).
+pub fn odd_token_updates(cs: u64) -> Vec<Op> {
+    let a = cs as u32 + 1;
+    let mut out = Vec::new();
+    for k in 0..3u8 {
+        for t in ODD_TOKENS {
+            out.push(Op::Put { key: k, size: a, var: 1, mode: Mode::Update(t) });
+        }
+    }
     out
 }
 
